@@ -254,6 +254,31 @@ def job_series(l):
         return abs(val - fifth) > 1e-9 * abs(fifth), 'cf_z_calc Taylor branch at x^2=0.09, l=%d: %r ; exact 5-term series %r ; exact function %r (relative error of the branch %.2e vs %.2e for the correct series)' % (
             l, val, fifth, ex, abs(val - ex) / abs(ex), abs(fifth - ex) / abs(ex))
     results.append(discharge(Obligation('l=%d: Taylor branch of cf_z_calc equals the exact series of z in x^2 through order (x^2)^5' % l, eq_goal(zt, polyz), [], replay=rpz, key='series:z_taylor')))
+    # z Bessel branch (|x^2| > 0.1): spherical_jn is an uninterpreted function of (order, argument), cf_csqrt an atom S with S^2 = x^2; the branch must be S j_{l+1}(S) / j_l(S)
+    S = Q.sym('sqrt_x2')
+    J = {}
+
+    def sph(n, x):
+        n = int(Q.of(n).const()) if not isinstance(n, int) else n
+        J.setdefault(n, Q.sym('spherical_jn_%d' % n))
+        return J[n]
+    fb, _ = loader.load_pyx(ST + 'common.pyx', ['cf_z_calc'], {'cf_cabs': lambda x: Q(1), 'cf_csqrt': lambda x: S, 'spherical_jn': sph})
+    zb = Q.of(fb['cf_z_calc'](u, l))
+    okk = (l in J) and (l + 1 in J)
+
+    def rpb(md):
+        import mpmath as mp
+        f2, _ = loader.load_pyx(ST + 'common.pyx', ['cf_z_calc'], {'cf_cabs': abs, 'cf_csqrt': lambda x: complex(mp.sqrt(x)),
+                                                                     'spherical_jn': lambda n, x: complex(mp.sqrt(mp.pi / (2 * x)) * mp.besselj(n + 0.5, x))}, float_mode=True)
+        uu = 0.7 + 0.2j
+        val = f2['cf_z_calc'](uu, l)
+        x = mp.sqrt(uu)
+        jl = lambda n, x_: mp.sqrt(mp.pi / (2 * x_)) * mp.besselj(n + 0.5, x_)
+        ex = complex(x * jl(l + 1, x) / jl(l, x))
+        # compiled module (only when in sync): z enters the Kamata starting vectors; compare through the public find_starting_conditions is not possible for z alone, so the source is authoritative
+        return abs(val - ex) > 1e-9 * abs(ex), 'cf_z_calc Bessel branch (transliterated current source, float mode) at x^2=%r, l=%d: %r ; x j_{l+1}(x)/j_l(x) = %r' % (uu, l, val, ex)
+    results.append(discharge(Obligation('l=%d: Bessel branch of cf_z_calc (|x^2| > 0.1) is sqrt(x^2) * j_{l+1}(sqrt(x^2)) / j_l(sqrt(x^2))' % l,
+                                        eq_goal(zb, S * J[l + 1] / J[l]) if okk else z3.BoolVal(False), [J[l].re != 0] if okk else [], replay=rpb, key='series:z_bessel')))
     return {'results': results, 'encoded': loader.ENCODED, 'label': 'series l=%d' % l}
 
 
